@@ -98,7 +98,10 @@ Proof. vm_compute. reflexivity. Qed.
 Theorem C01_reference_semantics_executes_a_flat_program_to_itself strict p :
   wf_flat env0 p = true -> forallb quantum_blocks p = true -> forallb no_bit_init p = true ->
   exists tr, spec_run strict false [] p = Ok tr /\ lower tr = Ok p.
-Proof. exact (reference_semantics_on_flat_programs strict p). Qed.
+Proof.
+  intros Hw Hq Hi. destruct (reference_semantics_on_flat_programs strict p Hw Hq Hi) as (tr & E & L & _).
+  exists tr. split; assumption.
+Qed.
 Print Assumptions C01_reference_semantics_executes_a_flat_program_to_itself.
 
 Theorem C01_model_and_reference_semantics_agree_on_flat_programs strict p o :
